@@ -33,26 +33,26 @@ reg('C07', 'SEQ+ENUM',
 
 reg('C01', 'SEQ+ENUM',
     'bounded-exhaustive enumeration of add_route histories (accepted and rejected, lazy and eager compile) x representative paths, lockstep with a transactional reference router (interpretive DFS)',
-    'Every history of <=2 adds over 181 templates (13 segment kinds, depth <=2, 12 must-be-rejected shapes), <=3 adds over a 25-template core '
+    'Every history of <=2 adds over 203 templates (13 segment kinds, depth <=2, 12 must-be-rejected shapes), float/dt converter kinds next to their fall-back templates, <=3 adds over a 25-template core '
     '(thorough: depth-3 templates, <=4 adds, quote/backslash literals) is run on a fresh CompiledRouter and on an independent reference router; '
     'after every add the accept/reject outcome, the tree shape and every lookup over the complete representative path set of that history '
     '(matched resource, uri_template, exact typed params; no exception) are compared.',
-    'pure-Python router from the working tree; ASCII segment alphabet without newline; built-in converters int/uuid/path', 'DESIGN.md section 5 C01')
+    'pure-Python router from the working tree; ASCII segment alphabet without newline; built-in converters int/uuid/path/float/dt', 'DESIGN.md section 5 C01')
 
 reg('C18', 'AIO+CHOICE',
     'stateless exhaustive exploration of all interleavings of loop steps and environment events on a hand-stepped asyncio loop, invariant oracle on every state',
     'A real falcon.asgi.App serves one WebSocket on a virtual event loop; after a deterministic handshake prelude EVERY interleaving of '
-    '{next ready loop handle, server delivery, gated application step, send completion, external cancel} is enumerated for k<=3 (thorough 4) '
-    'deliveries, capacities 0-4 and four application shapes; FIFO/lossless prefix, queue bound, disconnect ordering, no lost wake-up at idle points, '
+    '{next ready loop handle, server delivery, gated application step, send completion, external cancel} is enumerated for k<=3 (thorough 5) '
+    'deliveries, capacities 0-4 and six application shapes (single/burst receiver, receiver+sender, cancelled receive, close racing a receive, close frame that cannot be sent), text and binary payloads; FIFO/lossless prefix, queue bound, disconnect ordering, no lost wake-up at idle points, '
     'and clean termination are checked after every step and in every terminal state.',
     'asyncio FIFO ready-queue discipline is kept (specified); held messages measured externally (pulls issued - messages returned); fake server '
     'keeps a delivered-but-unconsumed message on cancellation like asyncio.Queue', 'DESIGN.md section 5 C18')
 
 reg('C02', 'SEQ+ENUM',
     'bounded-exhaustive enumeration of registration histories (routes/suffixes/sinks/static routes, both orders) x requests, lockstep with a list model of the history',
-    'Every registration history within the bound (quick 3 116, thorough 50 043 histories over nested alphabets incl. all 32 method subsets, suffix resource '
-    'kinds, 6 sink prefixes, static routes, rejected registrations) is built as a real WSGI and ASGI app under both sink_before_static_route values and '
-    'queried with 7 methods x 13 boundary paths, after the last and after every registration; status, which responder/sink/file ran with which kwargs and '
+    'Every registration history within the bound (quick 3 431, thorough 66 818 histories over nested alphabets incl. all 32 method subsets, falsy resources, suffix resource '
+    'kinds, 8 sink prefixes (incl. flag-dependent precompiled), static routes, rejected registrations) is built as a real WSGI and ASGI app under both sink_before_static_route values and '
+    'queried with 7 methods x 14 boundary paths, after the last and after every registration; status, which responder/sink/file ran with which kwargs and '
     'the Allow multiset are compared with a dispatch table computed from the history.',
     'URI-template matching itself is C01; custom routers and set_default_responders overrides are not generated', 'DESIGN.md section 5 C02')
 
@@ -61,8 +61,8 @@ reg('C05', 'ENUM+CHOICE',
     'Every cell of status form (26) x method x all 16 body-source subsets x stream kind x preset Content-Length/Content-Type x cookies x response class is '
     'served by a real app on both stacks; the drivers\' protocol monitors, the exact body by the documented precedence, Content-Length, Content-Type '
     'presence, Set-Cookie lines and close() counts are checked; fault points (stream raises at chunk k, send fails at call k, server abandons after k chunks, '
-    'SSE client disconnect) are Chooser deviations explored to bound 1 (thorough 2).',
-    'HTTP/2 rules and trailers out of scope; attribute assignment order inside the responder is fixed', 'DESIGN.md section 5 C05')
+    'SSE client disconnect) are Chooser deviations explored to bound 1 (thorough 2); also: falsy values, stream shapes, assignment orders with renders in between, responses composed by an error handler after a failed render.',
+    'HTTP/2 rules and trailers out of scope', 'DESIGN.md section 5 C05')
 
 reg('C08', 'ENUM',
     'bounded-exhaustive enumeration of all query strings up to length L over an 11-symbol alphabet (+ token sequences) x option combinations, against an independent form-urlencoded reader; getter x value x occurrence tables; to_query_str round trip',
@@ -90,8 +90,8 @@ reg('C10', 'ENUM',
 reg('C11', 'ENUM+SEQ',
     'bounded-exhaustive enumeration of Accept headers (all sequences of <=k members of a 95-member range grammar) x candidate lists against an own RFC 9110 precedence model; depth-bounded unmerged search over handler-map mutation histories against a dict model',
     'Every header of <=2 (thorough <=3) members x 159 candidate lists through quality/best_match/client_accepts/client_prefers on both request classes; every '
-    'history of <=3 (thorough <=4, <=5 on a sub-alphabet) of 21 mapping operations incl. copy (both objects stay observed), with a resolution battery '
-    '(9 types x 2 defaults x 3 raise modes via _resolve, get_media and resp.media) after every operation, warm and cold caches.',
+    'history of <=3 (thorough <=4, <=5 on a sub-alphabet) of 25 mapping operations incl. copy (both objects stay observed), with a resolution battery '
+    '(14 types x 2 defaults x 3 raise modes via _resolve, get_media, resp.media and an event stream served by a long-lived ASGI app) after every operation, warm and cold caches.',
     'the resolver lru_cache is unobservable state: histories are not merged', 'DESIGN.md section 5 C11')
 
 reg('C15', 'SEQ+ENUM',
@@ -115,7 +115,7 @@ reg('C03', 'CHOICE+ENUM',
     'hook stackings) every assignment of actions to the call sites actually reached is explored up to 2 (thorough 3) deviations; the complete call trace '
     '(arguments, req_succeeded, params, error-handler calls, decoys never called, final status) must equal the model\'s. ASGI lifespan startup/shutdown '
     'sequences are enumerated exhaustively.',
-    'HTTPStatus raised from middleware and handlers raising non-HTTP exceptions are outside the alphabet', 'DESIGN.md section 5 C03')
+    'handlers raising non-HTTP exceptions are outside the alphabet', 'DESIGN.md section 5 C03')
 
 reg('C04', 'SEQ+ENUM',
     'explicit-state BFS over add_error_handler histories for all small exception DAGs (merged on real + model registry) x raise probes; full product of raise sites; bounded enumeration of default error renderings against independent JSON/XML decoders',
@@ -141,11 +141,12 @@ reg('C16', 'ENUM',
 
 reg('C19', 'THR+AIO+SEQ',
     'preemption-bounded exhaustive exploration of thread schedules (controlled scheduler, line-granularity scheduling points, cooperative lock), exhaustive ASGI task interleavings on a hand-stepped loop, and all sequential request orders; oracle: every response equals the solo response',
-    '(1) 2-3 first-ever WSGI requests run as real threads under a deterministic scheduler; every schedule with <=2 (thorough 3) preemptions at line granularity '
-    'inside the router (thorough: also App.__call__/_get_responder) is executed, deadlock included; (2) 2-3 ASGI requests run as tasks on a virtual loop and '
-    'every interleaving of their receive/send completions with the loop steps is executed; (3) the requests run sequentially in every order on one app, cold '
-    'and warm process-wide caches. Each observation (status, headers, body incl. params/context seen by the responder, exception) must equal that of the same '
-    'request alone on a fresh app.',
+    '(1) 2-3 first-ever WSGI requests run as real threads under a deterministic scheduler; every schedule with <=2 preemptions at line granularity '
+    'inside the router (thorough: also App.__call__/_get_responder), and with <=1 (thorough 2) preemptions at ANY falcon line, is executed, deadlock included; '
+    '(2) 2 ASGI requests run as tasks on a virtual loop and every interleaving of their receive/send completions with the loop steps is executed, 3 requests with '
+    '<=3 (thorough 5) departures from the default order; (3) the requests run sequentially in every order on one app, cold '
+    'and warm process-wide caches. Each observation (status line, headers, body incl. params/context seen by the responder, exception) must equal that of the same '
+    'request alone on a fresh app as the first request of a fresh process.',
     'line granularity under the GIL; threading.Lock in falcon.routing.compiled is rebound to a cooperative lock from the harness; a defect that also breaks '
     'the solo run is outside this differential oracle (C01/C02 cover it)', 'DESIGN.md section 5 C19')
 
